@@ -60,15 +60,19 @@ def check_lock_typestate(ctx):
                 if isinstance(p, ast.withitem):
                     ctx.ok('R12.1', f'{fi.module}|{fi.qualname}|with {norm(c, 60)}', sample=norm(c, 60))
                     continue
-                # manual protocol: X = <call>.enter()
+                # manual protocol: X = <call>.enter()   (or  X = X or <call>.enter()  inside the guarded try)
                 ok = False
                 why = 'lock object is neither a with-item nor entered through the manual protocol'
                 if isinstance(p, ast.Attribute) and p.attr == 'enter' and isinstance(par.get(p), ast.Call):
                     ecall = par[p]
                     asg = par.get(ecall)
+                    if isinstance(asg, ast.BoolOp) and isinstance(asg.op, ast.Or):
+                        asg = par.get(asg)
                     if isinstance(asg, ast.Assign) and isinstance(asg.targets[0], ast.Name):
                         var = asg.targets[0].id
                         ok, why = manual_protocol(fi.node, asg, var, par)
+                        if not ok:
+                            ok, why = manual_protocol_inside_try(fi.node, asg, var, par)
                 ctx.check('R12.1', ok, fi.module, fi.qualname, c, why + ': a failing edit would leave the tree locked '
                           '("nested modification" errors on every later edit)', c.lineno, sample=norm(c, 60))
     if n < 10:
@@ -105,6 +109,49 @@ def manual_protocol(fn, asg, var, par):
         return False, 'manual protocol: success() must be called in the else clause'
     for s in t.body:
         for x in ast.walk(s):
+            if isinstance(x, ast.Return):
+                return False, 'manual protocol: `return` inside the try body skips success()'
+    return True, ''
+
+
+def manual_protocol_inside_try(fn, asg, var, par):
+    """Variant used by unpar(): `var = None` before a try; `var = ....enter()` inside the try body; a catch-all handler does
+    `if var: var.fail()` and re-raises; the else clause does `if var: var.success()`; no return inside the try body."""
+    t = asg
+    while t in par and not isinstance(t, ast.Try):
+        t = par[t]
+        if t is fn:
+            return False, 'manual enter() is neither followed by nor inside a try/except/else'
+    if not isinstance(t, ast.Try) or not any(asg is x for s in t.body for x in ast.walk(s)):
+        return False, 'manual enter() is neither followed by nor inside a try body'
+    # var initialised to None right before the try
+    holder = None
+    for n in ast.walk(fn):
+        for fld in ('body', 'orelse', 'finalbody'):
+            lst = getattr(n, fld, None)
+            if isinstance(lst, list) and t in lst:
+                holder = lst
+    i = holder.index(t) if holder else -1
+    init = i > 0 and isinstance(holder[i - 1], ast.Assign) and norm(holder[i - 1]) == f'{var} = None'
+    if not init:
+        return False, f'manual protocol inside try: `{var} = None` must precede the try'
+    catch_all = [h for h in t.handlers if h.type is None or norm(h.type) == 'BaseException']
+    if not catch_all:
+        return False, 'manual protocol: no bare `except:` handler'
+    h = catch_all[0]
+
+    def guarded_call(stmts, meth):
+        for s_ in stmts:
+            if isinstance(s_, ast.If) and norm(s_.test) == var:
+                if any(isinstance(x, ast.Call) and call_name(x) == meth and norm(x.func.value) == var for b in s_.body for x in ast.walk(b)):
+                    return True
+        return False
+    if not (guarded_call(h.body, 'fail') and any(isinstance(s_, ast.Raise) and s_.exc is None for s_ in h.body)):
+        return False, 'manual protocol: handler must do `if m: m.fail()` and re-raise'
+    if not guarded_call(t.orelse, 'success'):
+        return False, 'manual protocol: else clause must do `if m: m.success()`'
+    for s_ in t.body:
+        for x in ast.walk(s_):
             if isinstance(x, ast.Return):
                 return False, 'manual protocol: `return` inside the try body skips success()'
     return True, ''
@@ -173,30 +220,34 @@ def check_manager(ctx):
 
 # ----------------------------------------------------------------------------------------------------------------------
 
-import re
+from .atomic import Flow, VALIDATOR_RE, validator_calls, PAIRS
 
-# the request-validating family (DESIGN R12.3): functions whose job is to parse / coerce / validate the caller's request and
-# which raise NodeError / ValueError / ParseError / IndexError when it is unacceptable.  Naming conventions of the repository.
-VALIDATOR_RE = re.compile(r'^(code_as\w*|_code_as\w*|_code_to_slice\w*|_coerce_\w+|_validate_\w+|validate_\w+|fixup_slice_indices|'
-                          r'fixup_one_index|fixup_field_body|_fixup_slice_index_for_raw|check_options|_normalize_code\w*|'
-                          r'_params_Compare|parse\w*|_parse\w*|_check_\w+|_put_one_NOT_IMPLEMENTED\w*|_get_one_NOT_IMPLEMENTED\w*)$')
-
-
-def validator_calls(cfg, node):
-    out = []
-    for x in subnodes(cfg, node):
-        if isinstance(x, ast.Call):
-            cn = call_name(x)
-            if cn and VALIDATOR_RE.match(cn):
-                out.append(x)
-            elif cn == 'code_as' and isinstance(x.func, ast.Attribute) and norm(x.func.value) == 'static':
-                out.append(x)
-    return out
+# reviewed instances: (function qualname, prefix of the reported construct) -> reason it cannot violate the property
+REVIEWED = {
+    ('_put_one_Raise_exc', '_put_one_exprlike_optional(self, code, idx'):
+        'deleting Raise.exc first deletes the dependent `cause` (a complete edit); the following delete of `exc` runs with '
+        'code=None, can_del=True, an index already rejected by the dispatcher for this non-list field, and a deletion location '
+        'that exists whenever the child exists: it cannot be refused',
+    ('_put_one_ExceptHandler_type', '_put_one_exprlike_optional(self, code, idx'):
+        'same shape as Raise.exc: the dependent `name` is removed first, the delete of `type` with code=None cannot be refused '
+        '(the except* case is rejected before the first splice)',
+    ('_get_slice_stmtlike_old', "raise ValueError('cannot specify `one=True` if getting multiple statements')"):
+        'one=True is passed only by _get_one_stmtlike with the range (idx, idx + 1), i.e. exactly one statement; the source marks '
+        'the raise "doesn\'t currently happen" (internal invariant, not a request)',
+    ('_put_slice_stmtlike_old', 'raise ValueError(f"cannot insert empty statement into empty'):
+        'reached after _elif_to_else_if only when len_body == 1 and the request is an insertion (start == stop in 0..1): then '
+        'body[0] is fpre or fpost, so the final `else` arm (neither neighbour exists) is infeasible on that path',
+    ('_put_slice_stmtlike_old', '_src_edit.get_slice_stmt(self, field, True, block_loc'):
+        "the only request-dependent raise in SrcEdit.get_slice_stmt rejects a 'pep8space' value outside {True, False, 1}; "
+        'check_options (_check_opt_pep8space) has rejected such a value before any kernel call (R20.5)',
+    ('FST.put_docstr', "self._put_slice(text, 0, has_docstr, 'body'"):
+        're-put: the old docstring is deleted by a complete edit, then the new one is put; `text` is the output of '
+        'repr_str_multiline (always a valid string literal statement) and the options were validated by check_options at entry',
+}
 
 
 def early_raisers(ctx, ef):
-    """{function key: description} for functions whose *own body* can reject the request before it mutates anything:
-    an explicit request-dependent raise or a validator-family call reachable with no prior mutation of its `self`."""
+    """{function key: description} for kernel functions whose *own body* has an explicit request-dependent raise."""
     cache = getattr(ctx, '_early', None)
     if cache is not None:
         return cache
@@ -215,66 +266,74 @@ def early_raisers(ctx, ef):
     return cache
 
 
-def analyse_function(ctx, ef, fi, param='self', consts=None, rid='R12.3'):
-    """Path-sensitive: the '$mut' pseudo fact is set by the first construct that mutates the tree of `param`; afterwards
-    (a) an explicit request-dependent raise of this function, (b) a call into the request-validating family, (c) a call to a
-    kernel function whose own body can reject the request (depth 1), are findings when the exception leaves the function."""
-    cfg = ef.cfg(fi)
-    consts = dict(consts or {})
-    mut_cache = {}
-
-    def hook(node, facts):
-        if '$mut' in facts:
-            return None
-        if node.kind not in ('stmt', 'test', 'iter', 'with', 'case'):
-            return None
-        fk = tuple(sorted((k, repr(v)) for k, v in facts.items() if k[:1] != '$'))
-        key = (node.id, fk)
-        if key not in mut_cache:
-            mut_cache[key] = ef.node_mutates(fi, cfg, node, param, [facts])
-        hits = mut_cache[key]
-        if hits:
-            return {'$mut': lit(getattr(hits[0], 'lineno', node.lineno))}
-        return None
-    fl = ConstFlow(cfg, consts, hook)
+def raise_sources(ctx, ef, fi, flow, node, disj, consts):
+    """Constructs evaluated at `node` that can reject the caller's request: (construct, description)."""
+    cfg = flow.cfg
+    srcs = []
+    if node.kind == 'stmt' and isinstance(node.ast, ast.Raise):
+        if is_reraise(fi, node.ast):
+            return srcs       # propagates what the try body raised; the sources in the try body are examined on their own
+        if ef.is_user_raise(fi, node.ast, consts):
+            srcs.append((node.ast, 'explicit raise'))
+        return srcs
+    for c in validator_calls(cfg, node):
+        srcs.append((c, f'request validation `{call_name(c)}`'))
     early = early_raisers(ctx, ef)
+    ce = ef._ce(fi)
+    clean = [{k: v for k, v in d.items() if k[:1] != '$'} for d in disj]
+    for x in subnodes(cfg, node):
+        if isinstance(x, ast.Call) and id(x) in ce:
+            for cal, binding in ce[id(x)]:
+                if cal.key in early and not VALIDATOR_RE.match(cal.name) and cal.name not in PAIRS:
+                    for cc in ef.call_consts_all(cal, binding, clean):
+                        if own_raise_feasible(ef, cal, cc):
+                            srcs.append((x, f'call to {cal.qualname} whose own body can reject the request ({early[cal.key]})'))
+                            break
+    return srcs
+
+
+def is_reraise(fi, st: ast.Raise) -> bool:
+    """bare `raise`, or `raise <name bound by the enclosing except clause>` (possibly after attaching context)."""
+    if st.exc is None:
+        return True
+    if isinstance(st.exc, ast.Name):
+        for n in ast.walk(fi.node):
+            if isinstance(n, ast.ExceptHandler) and n.name == st.exc.id and any(x is st for s in n.body for x in ast.walk(s)):
+                return True
+    return False
+
+
+def analyse_function(ctx, ef, fi, param='self', consts=None):
+    """(findings, nodes examined): after the first permanent mutation of the tree of `param` ($mut), or while a temporary
+    normalisation is in force ($tmp) and no handler restores it, nothing may reject the request."""
+    consts = dict(consts or {})
+    flow = Flow(ef, fi, param, consts)
+    cfg = flow.cfg
     findings = []
     n_checked = 0
     for node in cfg.nodes:
-        disj = [d for d in fl.all_facts(node.id) if '$mut' in d]
-        if not disj or node.kind not in ('stmt', 'test', 'iter', 'with', 'case'):
+        if node.kind not in ('stmt', 'test', 'iter', 'with', 'case'):
+            continue
+        states = flow.states(node.id)
+        mut = [d for d in states if '$mut' in d]
+        tmp = [d for d in states if flow.tmp_held(d)]
+        if not mut and not tmp:
             continue
         n_checked += 1
-        srcs = []
-        if node.kind == 'stmt' and isinstance(node.ast, ast.Raise):
-            if ef.is_user_raise(fi, node.ast):
-                srcs.append((node.ast, 'explicit raise'))
-        else:
-            for c in validator_calls(cfg, node):
-                srcs.append((c, f'request validation `{call_name(c)}`'))
-            ce = ef._ce(fi)
-            for x in subnodes(cfg, node):
-                if isinstance(x, ast.Call) and id(x) in ce:
-                    for cal, binding in ce[id(x)]:
-                        if cal.key in early and not VALIDATOR_RE.match(cal.name):
-                            # the callee must be able to reach that raise under the constants passed here
-                            clean = [{k: v for k, v in d.items() if k[:1] != '$'} for d in disj]
-                            for cc in ef.call_consts_all(cal, binding, clean):
-                                if own_raise_feasible(ef, cal, cc):
-                                    srcs.append((x, f'call to {cal.qualname} whose own body can reject the request ({early[cal.key]})'))
-                                    break
+        srcs = raise_sources(ctx, ef, fi, flow, node, mut + tmp, consts)
         if not srcs:
             continue
-        leaves = False
-        for lab, s in node.succ:
-            if lab == 'exc':
-                if s == cfg.raise_ or cfg.raise_ in cfg.reachable(s, lambda nn, l2, s2: True):
-                    leaves = True
-        if not leaves:
-            continue
-        mut_line = min(d['$mut'][1] for d in disj)
         for construct, how in srcs:
-            findings.append((construct, how, mut_line))
+            if mut and flow.exception_leaves(node):
+                line = min(d['$mut'][1] for d in mut)
+                findings.append((construct, how, f'the target tree was already modified (first mutation at line {line})'))
+            elif tmp:
+                held = set()
+                for d in tmp:
+                    held |= set(flow.tmp_held(d))
+                # a release evaluated at this very node (`_restore(self, state)` as part of it) does not count as before
+                if flow.exception_leaves(node, held):
+                    findings.append((construct, how, f'the temporary normalisation {sorted(held)} is in force and no handler restores it'))
     return findings, n_checked
 
 
@@ -284,20 +343,12 @@ def own_raise_feasible(ef, cal, consts) -> bool:
     c = ef._raises.get(key)
     if c is not None:
         return c
-    cfg = ef.cfg(cal)
-    mutc = {}
-
-    def hook(node, facts):
-        if '$mut' in facts or node.kind not in ('stmt', 'test', 'iter', 'with', 'case'):
-            return None
-        if 'self' in cal.params() and ef.node_mutates(cal, cfg, node, 'self', [facts]):
-            return {'$mut': lit(node.lineno)}
-        return None
-    fl = ConstFlow(cfg, {k: v for k, v in consts.items() if k in cal.params()}, hook)
+    ps = cal.params()
+    flow = Flow(ef, cal, 'self' if 'self' in ps else (ps[0] if ps else 'self'), {k: v for k, v in consts.items() if k in ps})
     res = False
-    for n in cfg.nodes:
+    for n in flow.cfg.nodes:
         if n.kind == 'stmt' and isinstance(n.ast, ast.Raise) and ef.is_user_raise(cal, n.ast, consts):
-            if any('$mut' not in d for d in fl.all_facts(n.id)):
+            if any('$mut' not in d for d in flow.states(n.id)):
                 res = True
                 break
     ef._raises[key] = res
@@ -307,15 +358,16 @@ def own_raise_feasible(ef, cal, consts) -> bool:
 def roots_for_r123(ctx, ef):
     """Functions to analyse: everything in the edit-kernel modules whose `self` tree is mutated."""
     out = []
+    ef.compute_mutations()
     for fi in ctx.repo.all_funcs():
         if isinstance(fi.node, ast.Lambda) or fi.module not in KERNEL_MODULES:
             continue
         ps = fi.params()
         if not ps or ps[0] != 'self':
             continue
-        if fi.cls and fi.cls not in ('FST',) and not fi.cls.startswith('FSTView') and fi.cls not in ('SrcEdit', 'Reconcile'):
+        if fi.cls and fi.cls not in ('FST',) and not fi.cls.startswith('FSTView') and fi.cls not in ('SrcEdit',):
             continue
-        if 'self' in ef.mutated_params(fi):
+        if 'self' in ef._mut.get(fi.key, ()):       # unspecialised fixpoint (upper bound) is enough to select candidates
             out.append(fi)
     return out
 
@@ -327,19 +379,36 @@ def check_validate_then_mutate(ctx, ef):
     if len(fns) < 150:
         raise AnalysisError(f'only {len(fns)} tree-mutating kernel functions found (>= 150 expected)')
     total = 0
+    early_raisers(ctx, ef)          # computed once before forking
     for fi in fns:
-        findings, n = analyse_function(ctx, ef, fi)
+        ef.caller_consts(fi)
+        break
+    fns.sort(key=lambda f: -len(ef.cfg(f).nodes))
+
+    def work(fi):
+        consts = ef.caller_consts(fi)
+        findings, n = analyse_function(ctx, ef, fi, 'self', consts)
+        return [(norm(c, 90), getattr(c, 'lineno', 0), how, state) for c, how, state in findings], n, {k: repr(v) for k, v in consts.items()}
+    from ..engine import parallel_map
+    results = parallel_map(work, fns)
+    for fi, (findings, n, consts) in zip(fns, results):
         total += n
-        if not findings:
-            ctx.ok('R12.3', f'{fi.module}|{fi.qualname}', sample={'function': fi.key, 'nodes_after_mutation_checked': n})
         seen = set()
-        for construct, how, mut_line in findings:
-            k = norm(construct, 90)
+        real = []
+        for k, line, how, state in findings:
             if k in seen:
                 continue
             seen.add(k)
+            rv = [r for (q, pre), r in REVIEWED.items() if q == fi.qualname and k.startswith(pre)]
+            if rv:
+                ctx.ok('R12.3', f'{fi.module}|{fi.qualname}|reviewed: {k}', sample={'reviewed': fi.qualname, 'reason': rv[0][:120]})
+                continue
+            real.append((k, line, how, state))
+        if not real:
+            ctx.ok('R12.3', f'{fi.module}|{fi.qualname}', sample={'function': fi.key, 'nodes_after_mutation_checked': n,
+                                                                  'specialised_for': consts})
+        for k, line, how, state in real:
             ctx.bad('R12.3', fi.module, fi.key.split('.', 1)[1], k,
-                    f'{how} is reachable after the target tree was already modified (first mutation at line {mut_line}): a rejected '
-                    f'request leaves a half-applied edit', getattr(construct, 'lineno', 0))
+                    f'{how} is reachable while {state}: a rejected request leaves a half-applied edit', line)
     ctx.extra['r123_functions'] = len(fns)
     ctx.extra['r123_nodes_after_mutation_examined'] = total
